@@ -107,9 +107,20 @@ type h265Var struct {
 var h265Levels = []int{90, 93, 120}
 var h265Q = []h265Var{
 	{w: 1280, h: 720, timing: true, ticks: 1, tscale: 25},
-	{w: 1920, h: 1080, timing: true, ticks: 1, tscale: 50},
+	// picture reordering with VUI timing: the DTS extractor reads the slice headers, dts < pts
+	{w: 1920, h: 1080, timing: true, ticks: 1, tscale: 50, reorder: 2},
 	{w: 1280, h: 720, cropBottom: 8, reorder: 2}, // no VUI: the DTS extractor returns pts without reading slices
 	{w: 640, h: 360, timing: true, ticks: 1001, tscale: 30000},
+}
+
+// h265ReorderOf: (sps_max_num_reorder_pics, 90 kHz ticks per picture) when the DTS extractor derives
+// dts = pts - samplesDiff * tick from the slice headers under parameter id p; (0, 0) when it returns pts
+func h265ReorderOf(p int64) (int, int64) {
+	v := h265Q[pq(p)]
+	if v.reorder == 0 || !v.timing {
+		return 0, 0
+	}
+	return v.reorder, 90000 * int64(v.ticks) / int64(v.tscale)
 }
 
 func h265Width(p int64) int  { return h265Q[pq(p)].w }
@@ -224,6 +235,83 @@ var h265NonRATypes = []byte{1, 0, 1, 9, 1, 8} // TRAIL_R, TRAIL_N, RASL_R, RASL_
 
 const h265SEI = 39 // PREFIX_SEI_NUT
 
+func h265SliceType(id int64, ra bool) byte {
+	if ra {
+		return h265RATypes[id%3]
+	}
+	return h265NonRATypes[id%6]
+}
+
+// what h265.DTSExtractor makes of a slice under a reordering SPS (reorder = sps_max_num_reorder_pics):
+// samplesDiff = (pts - dts) / tick, as a function of the NAL type and the header argument rpsArg
+func h265SamplesDiff(typ byte, reorder, rpsArg int) int {
+	switch typ {
+	case 19, 20: // IDR: not parsed, always the full reordering depth
+		return reorder
+	case 0, 8: // TRAIL_N / RASL_N B slice: reorder - num_positive_pics
+		return reorder - rpsArg
+	}
+	return reorder + rpsArg // CRA (I slice), TRAIL_R / RASL_R P slice: -DeltaPocS0[0] - 1 + reorder
+}
+func h265MaxRpsArg(typ byte, reorder int) int {
+	switch typ {
+	case 0, 8:
+		return reorder
+	}
+	return 2
+}
+
+const h265SliceHdrLen = 6
+
+// slice_segment_header() as far as the DTS extractor reads it (H.265 7.3.6.1), for the SPS / PPS
+// variants above (8-bit pic_order_cnt_lsb, no short-term RPS in the SPS, no extra header bits):
+// padded with one bits to h265SliceHdrLen bytes
+func h265SliceHeader(typ byte, id int64, rpsArg int) []byte {
+	var w bitw
+	w.put(1, 1) // first_slice_segment_in_pic_flag
+	if typ >= 16 && typ <= 23 {
+		w.put(0, 1) // no_output_of_prior_pics_flag
+	}
+	w.ue(0) // slice_pic_parameter_set_id
+	switch typ {
+	case 19, 20:
+		w.ue(2) // slice_type I; IDR pictures carry neither pic_order_cnt_lsb nor a reference picture set
+	default:
+		st := uint64(1) // P
+		if typ == 21 {
+			st = 2 // I
+		} else if typ == 0 || typ == 8 {
+			st = 0 // B
+		}
+		w.ue(st)
+		w.put(uint64(id%255)+1, 8) // slice_pic_order_cnt_lsb (never 0: no start-code emulation)
+		w.put(0, 1)                // short_term_ref_pic_set_sps_flag: the set follows inline
+		if st == 0 {
+			w.ue(1)              // num_negative_pics
+			w.ue(uint64(rpsArg)) // num_positive_pics
+			w.ue(0)              // delta_poc_s0_minus1
+			w.put(1, 1)          // used_by_curr_pic_s0_flag
+			for i := 0; i < rpsArg; i++ {
+				w.ue(0)     // delta_poc_s1_minus1
+				w.put(1, 1) // used_by_curr_pic_s1_flag
+			}
+		} else {
+			w.ue(1)              // num_negative_pics
+			w.ue(0)              // num_positive_pics
+			w.ue(uint64(rpsArg)) // delta_poc_s0_minus1
+			w.flag(typ != 21)    // used_by_curr_pic_s0_flag (a CRA picture references nothing)
+		}
+	}
+	for w.n < 8*h265SliceHdrLen {
+		w.put(1, 1)
+	}
+	return w.b
+}
+
+func h265Slice(typ byte, id int64, ln int, rpsArg int) []byte {
+	return h265NALU(typ, append(h265SliceHeader(typ, id, rpsArg), fill(id, ln)...))
+}
+
 // id carried by an H265 sample (length-prefixed NALUs): the VCL NALU's, else the SEI's
 func h265SampleID(payload []byte) int64 {
 	pos := 0
@@ -237,7 +325,10 @@ func h265SampleID(payload []byte) int64 {
 		nalu := payload[pos : pos+n]
 		typ := (nalu[0] >> 1) & 0x3f
 		if typ < 32 {
-			return decID(nalu[2:])
+			if len(nalu) < 2+h265SliceHdrLen {
+				return -1
+			}
+			return decID(nalu[2+h265SliceHdrLen:])
 		}
 		if typ == h265SEI && best < 0 {
 			best = decID(nalu[2:])
@@ -564,21 +655,35 @@ func selfCheckCodecs() {
 			sps.ProfileTierLevel.GeneralFrameOnlyConstraintFlag && sps.ProfileTierLevel.GeneralNonPackedConstraintFlag &&
 			!sps.ProfileTierLevel.GeneralInterlacedSourceFlag, "h265 SPS %d: profile_tier_level", p)
 		must(sps.FPS() == h265FPS(p), "h265 SPS %d: fps %v", p, sps.FPS())
-		must(len(sps.MaxNumReorderPics) == 1 && (sps.MaxNumReorderPics[0] == 0 || sps.VUI == nil), "h265 SPS %d: the DTS extractor would read slice headers", p)
+		ro, tick := h265ReorderOf(p)
+		must(len(sps.MaxNumReorderPics) == 1 && (ro != 0) == (sps.MaxNumReorderPics[0] != 0 && sps.VUI != nil && sps.VUI.TimingInfo != nil) &&
+			(ro == 0 || int(sps.MaxNumReorderPics[0]) == ro), "h265 SPS %d: reordering", p)
 		var pps h265.PPS
-		must(pps.Unmarshal(h265PPSOf(p)) == nil && pps.NumExtraSliceHeaderBits == 0, "h265 PPS %d", p)
+		must(pps.Unmarshal(h265PPSOf(p)) == nil && pps.NumExtraSliceHeaderBits == 0 && !pps.OutputFlagPresentFlag, "h265 PPS %d", p)
 		must((h265VPSOf(p)[0]>>1)&0x3f == 32 && (h265SPSOf(p)[0]>>1)&0x3f == 33 && (h265PPSOf(p)[0]>>1)&0x3f == 34, "h265 NALU types %d", p)
 		uniq("h265", p, h265SPSOf(p))
-		// DTS extractor: dts = pts for IRAP and trailing pictures
+		// DTS extractor: dts = pts - samplesDiff * tick for every NAL type and header argument
 		ex := &h265.DTSExtractor{}
 		ex.Initialize()
-		for i, typ := range []byte{19, 1, 0, 21, 9, 20} {
-			au := [][]byte{h265NALU(typ, fill(int64(i+1), 20))}
+		dts := int64(-5000)
+		for i, typ := range []byte{19, 1, 0, 21, 9, 8, 20, 1, 0, 21} {
+			arg := i % (h265MaxRpsArg(typ, ro) + 1)
+			id := int64(i + 1)
+			au := [][]byte{h265Slice(typ, id, 20, arg)}
+			must(!bytes.Contains(au[0][2:], []byte{0, 0}), "h265 slice header with two zero bytes")
 			if i == 0 {
 				au = [][]byte{h265VPSOf(p), h265SPSOf(p), h265PPSOf(p), au[0]}
 			}
-			d, err := ex.Extract(au, int64(1000*i))
-			must(err == nil && d == int64(1000*i), "h265 DTS extractor, id %d unit %d: %v %v", p, i, d, err)
+			pts := dts + int64(h265SamplesDiff(typ, ro, arg))*tick
+			d, err := ex.Extract(au, pts)
+			must(err == nil && d == dts, "h265 DTS extractor, id %d unit %d type %d: got %v want %v err %v", p, i, typ, d, dts, err)
+			var avcc []byte
+			for _, n := range au {
+				avcc = append(avcc, byte(len(n)>>24), byte(len(n)>>16), byte(len(n)>>8), byte(len(n)))
+				avcc = append(avcc, n...)
+			}
+			must(h265SampleID(avcc) == id, "h265 sample id")
+			dts += 1000
 		}
 		// VP9
 		v := vp9ParamsOf(p)
